@@ -37,6 +37,9 @@ fn c10_frustum(l: R, r: R, b: R, t: R, n: R, f: R) {
         let g = hom(m, xs[i] * k, ys[j] * k, -f);
         vassert_eq("far corner: w = -z", g[3], f);
         vassert_eq("far corner -> z=+1 face", [g[0] / g[3], g[1] / g[3], g[2] / g[3]], [sg[i], sg[j], R(1.0)]);
+        // the same through the library's own point transform (which performs the divide by w)
+        let q = Transform::<Point3<R>>::transform_point(&m, Point3::new(xs[i] * k, ys[j] * k, -f));
+        vassert_eq("transform_point(far corner)", [q.x, q.y, q.z], [sg[i], sg[j], R(1.0)]);
         j += 1; } i += 1; }
     vcover("end");
 }
